@@ -28,6 +28,7 @@ struct TxRec {
     Bytes hdr_raw[2], trl_raw[2];    // raw header/trailer data
     Bytes file_data;                 // FILE_DATA bytes (PUT / multipart)
     int64_t txhook_body[2] = {0, 0}; // bytes seen by per-tx hooks
+    bool cb_declined_body[2] = {false, false};
     bool cb_nonok[2] = {false, false}; // some callback of that side returned non-OK (relaxes accounting)
     std::string cbseq;               // hook letters, consecutive data callbacks of one kind collapsed
     std::string cbseq_full;
@@ -43,16 +44,19 @@ struct CallRec {
     uint64_t ticks; uint64_t allocs;
     int cbs;   // non-log callbacks run during the call
     long buffered_before;  // bytes libhtp held for that direction before the call (C08 work measure)
+    unsigned conn_flags_after; int ntx_after; int next_tx_after;
 };
 
 struct ConnRes {
     std::vector<int> txs;            // ordinals into RunResult::txs in creation order
     int64_t offered[2] = {0, 0};     // bytes offered (accepted by a live stream)
+    int64_t offered_before_call[2] = {0, 0};
     int sticky[2] = {0, 0};          // HTP_STREAM_ERROR / STOP once seen
     bool tunnel_seen[2] = {false, false};
     int tx_count_at_tunnel = -1;
     uint64_t conn_flags = 0;
     int final_in_status = 0, final_out_status = 0;
+    int pre_close_status[2] = {-1, -1};   // stream states just before the first close call
     long final_tx_list_size = 0;
     bool destroyed = false;
     int log_count = 0;
